@@ -63,7 +63,9 @@ def handle (ws : List String) : String :=
   | ["block", ind, s] =>
     -- what a YAML parser reads back from the literal block the emitter writes for s
     match ind.toNat?, unhex s with
-    | some n, some bs => let e := emitBlock n bs; hex (parseBlock e.1 e.2)
+    | some n, some bs =>
+      let e := emitBlock n bs
+      if blockIllIndented e.2 then "err" else hex (parseBlock e.1 e.2)
     | _, _ => "bad-op"
   | _ => "bad-op"
 
